@@ -331,6 +331,12 @@ class CachedEvaluationMapper(CachedMapper, EvaluationMapper):
             self.cse_name_list.append((cse_name, cse_str))""")], None,
      "name and child are registered before the child is printed: only an exception in the "
      "middle of the emission (unsupported node) leaves a registered name without assignment"),
+    ("c14-revert-d12", "C14", STR,
+     """                    and isinstance(expr.children[0], Integral) \\
+""",
+     """                    \\
+""",
+     "fixed defect D12 comes back (a float -1.0 factor is printed as a subtraction)"),
     # ---------------- C12
     ("c12-multiset-to-set", "C12", CSE,
      "            return type(expr), frozenset(kid_count.items())",
